@@ -82,7 +82,7 @@ func checkResponseCP(w *svcWorld, ex *bed.Exchange) (string, string) {
 }
 
 func runC06(c *core.Case) *core.Result {
-	s, err := newSvcScenario(c, 6)
+	s, err := newSvcScenario(c, 6, false)
 	if err != nil {
 		return c.Inconclusive("test bed did not start: %v", err)
 	}
